@@ -1,8 +1,8 @@
 (* C16 - schema-supplied strings are data, never code. *)
 From Coq Require Import List String Ascii NArith Bool.
 From Coq Require Import ZArith.
-From Verif Require Import PyStrLit PyStrLitProofs PyLit PyLitProofs PyLine PyLineProofs Splice DefaultLit DefaultLitProofs SpliceProofs.
-From VerifGen Require Import K10.
+From Verif Require Import PyStrLit PyStrLitProofs PyLit PyLitProofs PyLine PyLineProofs Splice DefaultLit DefaultLitProofs SpliceProofs PyUse PyUseProofs SpliceUse LitRepr LitReprProofs LitReprK.
+From VerifGen Require Import K10 K116a.
 Import ListNotations.
 Open Scope string_scope.
 Open Scope N_scope.
@@ -215,6 +215,144 @@ Example C16_line_injection :
   /\ literals (codes "value = d.get(""x', MISSING) or f() or d.get('x"", MISSING)")
   = Some [VS (codes "x', MISSING) or f() or d.get('x")].
 Proof. split; vm_compute; reflexivity. Qed.
+
+(* ------------------------------------------------------------------ round 6: the ROLE of the literal
+   "(de)serialization uses exactly that string as key or value": the tokens around the string token
+   decide what the generated line does with it - first argument of X.get(, subscript X[..], key of a
+   dict display, element of a set display, right operand of ==.  [luse] reads the role off the tokens
+   before the literal (nearest first) and the first character after it (compared on every run with
+   the role CPython's own parser gives every string constant of the generated functions). *)
+
+(* the role read from a piece of text is the same after ANY earlier text: a template decides it alone *)
+Theorem C16_use_stable : forall w x nx u, luse w nx = Some u -> luse (w ++ x) nx = Some u.
+Proof. exact luse_mono. Qed.
+Print Assumptions C16_use_stable.
+
+(* for all strings d, all admissible before-texts b, all after-texts a, all earlier tokens acc and all
+   following text: if the static texts b, a decide the role u and the tokenizer accepts the text, its
+   output is acc, the characters of b, ONE string token of value d, ... and the scanner records (u, d) *)
+Theorem C16_text_use : forall p b a d rest prev acc ts u,
+  oracle_ok p -> wf_str d -> before_ok b = true -> after_ok a = true ->
+  text_use b a = Some u ->
+  tok_line (LDef prev) acc (b ++ py_repr p d ++ a ++ rest) = Some ts ->
+  exists post, ts = rev acc ++ map TkChar b ++ TkStr d :: post /\
+    uses_from (rev (map TkChar b) ++ acc) (TkStr d :: post)
+    = (u, VS d) :: uses_from (TkStr d :: rev (map TkChar b) ++ acc) post.
+Proof. exact text_use_line. Qed.
+Print Assumptions C16_text_use.
+
+
+(* the same for bytes literals (Literal[b"..."]): the b prefix belongs to the token *)
+Theorem C16_text_use_bytes : forall b a d rest prev acc ts u,
+  wf_bytes d -> before_ok b = true -> after_ok a = true ->
+  text_use b a = Some u ->
+  tok_line (LDef prev) acc (b ++ py_repr_bytes d ++ a ++ rest) = Some ts ->
+  exists post, ts = rev acc ++ map TkChar b ++ TkBytes d :: post /\
+    uses_from (rev (map TkChar b) ++ acc) (TkBytes d :: post)
+    = (u, VB d) :: uses_from (TkBytes d :: rev (map TkChar b) ++ acc) post.
+Proof. exact text_use_line_bytes. Qed.
+Print Assumptions C16_text_use_bytes.
+
+(* ... at every repr()/ascii() row of the table read from /repo whose template decides the role *)
+Theorem C16_site_use : forall st, In st splice_sites -> s_kind st = KRepr \/ s_kind st = KAscii ->
+  forall u, site_use st = Some u ->
+  forall p d rest prev acc ts, oracle_ok p -> wf_str d ->
+  tok_line (LDef prev) acc (codes (s_before st) ++ site_text (s_kind st) p d ++ codes (s_after st) ++ rest) = Some ts ->
+  exists post, ts = rev acc ++ map TkChar (codes (s_before st)) ++ TkStr d :: post /\
+    uses_from (rev (map TkChar (codes (s_before st))) ++ acc) (TkStr d :: post)
+    = (u, VS d) :: uses_from (TkStr d :: rev (map TkChar (codes (s_before st))) ++ acc) post.
+Proof. exact site_use_at. Qed.
+Print Assumptions C16_site_use.
+
+(* ... seen from the start of the generated text: its uses are those of the earlier text, (u, d), the rest *)
+Theorem C16_site_use_whole : forall st, In st splice_sites -> s_kind st = KRepr \/ s_kind st = KAscii ->
+  forall u, site_use st = Some u ->
+  forall p d rest prev acc ts, oracle_ok p -> wf_str d ->
+  tok_line (LDef prev) acc (codes (s_before st) ++ site_text (s_kind st) p d ++ codes (s_after st) ++ rest) = Some ts ->
+  exists U1 U2, uses_from [] ts = U1 ++ (u, VS d) :: U2.
+Proof. exact site_use_whole. Qed.
+Print Assumptions C16_site_use_whole.
+
+(* keys are compared code point by code point: the key token of value d selects the entry d and no other *)
+Theorem C16_key_eq_exact : forall a b, lval_eqb a b = true <-> a = b.
+Proof. exact lval_eqb_eq. Qed.
+Print Assumptions C16_key_eq_exact.
+
+(* non-vacuity: most rows decide their role, and the roles the property names are there: aliases are
+   read with d.get( and written with kwargs[ ], TypedDict keys are subscripts and .get( arguments, the
+   discriminator field is a subscript and an element of the allowed-keys set, Config.aliases values are
+   dict-display keys, Literal values are compared with == *)
+Example C16_nonvacuous_use :
+  Nat.leb 50 decided
+  && has_use "field alias" UGet && has_use "field alias" USub
+  && has_use "TypedDict key" USub && has_use "TypedDict key" UGet
+  && has_use "discriminator field" USub && has_use "discriminator field" UElem
+  && has_use "Config.aliases value" UDictKey && has_use "Literal value" UCmp = true.
+Proof. vm_compute. reflexivity. Qed.
+
+(* the D6 injection seen by the role scanner: raw splice = two mapping reads of the key x; repr = ONE
+   mapping read whose key is the whole alias *)
+Example C16_use_injection :
+  uses (codes "value = d.get('x', MISSING) or f() or d.get('x', MISSING)")
+  = Some [(UGet, VS (codes "x")); (UGet, VS (codes "x"))]
+  /\ uses (codes "value = d.get(""x', MISSING) or f() or d.get('x"", MISSING)")
+  = Some [(UGet, VS (codes "x', MISSING) or f() or d.get('x"))]
+  /\ uses (codes "kwargs[""it's""] = {'a': 1, 'b'}")
+  = Some [(USub, VS (codes "it's")); (UDictKey, VS (codes "a")); (UElem, VS (codes "b"))].
+Proof. repeat split; vm_compute; reflexivity. Qed.
+
+(* ------------------------------------------------------------------ round 6: helpers.literal_repr
+   The text of a Literal value goes through literal_repr.  K116a reads its loop from /repo (tuple of
+   bases in order, hit branch, fallback); LitRepr.v interprets such a table on objects with a builtin
+   payload, an exact-type flag and - for instances of subclasses - an ARBITRARY own __repr__. *)
+
+(* for every good table (first matching base of every payload kind is its own builtin type - bool before
+   int -, hits go through base.__repr__, the fallback is repr): for all objects the Literal guards admit,
+   whatever their class overrides, the text is the builtin repr of the payload ... *)
+Theorem C16_literal_repr_general : forall bases hit fb, lr_table_ok bases hit fb = true ->
+  forall p v, obj_wf v = true -> lr_model p bases hit fb v = Some (render_lit p (o_prim v)).
+Proof. exact lr_inert. Qed.
+Print Assumptions C16_literal_repr_general.
+
+(* ... /repo's literal_repr is a good table, so this holds for it ... *)
+Theorem C16_literal_repr_inert : forall p v, obj_wf v = true ->
+  lr_model p literal_repr_bases literal_repr_hit literal_repr_fallback v = Some (render_lit p (o_prim v)).
+Proof. exact literal_repr_inert. Qed.
+Print Assumptions C16_literal_repr_inert.
+
+(* ... and the text evaluates back to exactly the payload *)
+Theorem C16_literal_repr_eval : forall p v rest,
+  oracle_ok p -> obj_wf v = true -> wf_lit (o_prim v) -> ends_token rest = true ->
+  exists t, lr_model p literal_repr_bases literal_repr_hit literal_repr_fallback v = Some t
+            /\ eval_lit (t ++ rest) = Some (o_prim v, rest).
+Proof. exact literal_repr_eval. Qed.
+Print Assumptions C16_literal_repr_eval.
+
+
+(* the link to the splice table: what literal_repr returns for a str / bytes payload - exact, or an instance
+   of a subclass with ANY __repr__ - is the site text of a repr row (C16_site_line, C16_site_use apply to it) *)
+Theorem C16_literal_repr_site : forall p d ex r,
+  lr_model p literal_repr_bases literal_repr_hit literal_repr_fallback (mk_obj (PyLit.LStr d) ex r) = Some (site_text KRepr p d)
+  /\ lr_model p literal_repr_bases literal_repr_hit literal_repr_fallback (mk_obj (LBytes d) ex r) = Some (py_repr_bytes d).
+Proof. exact (fun p d ex r => conj (literal_repr_str p d ex r) (literal_repr_bytes p d ex r)). Qed.
+Print Assumptions C16_literal_repr_site.
+
+(* the pre-12c7fd8 renderer (repr(value)) emits the subclass's text; int before bool renders True as 1 *)
+Theorem C16_literal_repr_refuted :
+  lr_model (fun _ => true) [BBool; BInt; BStr; BBytes] HOwnRepr HOwnRepr (mk_obj (PyLit.LStr (codes "v")) false evil) = Some evil
+  /\ lr_table_ok [BBool; BInt; BStr; BBytes] HOwnRepr HOwnRepr = false
+  /\ lr_model (fun _ => true) [BInt; BBool; BStr; BBytes] HBaseRepr HOwnRepr (mk_obj (LBool true) true []) = Some (codes "1")
+  /\ lr_table_ok [BInt; BBool; BStr; BBytes] HBaseRepr HOwnRepr = false.
+Proof. exact lr_refuted. Qed.
+Print Assumptions C16_literal_repr_refuted.
+
+Example C16_nonvacuous_literal_repr :
+  obj_wf (mk_obj (PyLit.LStr (codes "v")) false evil) = true /\
+  lr_model (fun _ => true) literal_repr_bases literal_repr_hit literal_repr_fallback (mk_obj (PyLit.LStr (codes "v")) false evil)
+  = Some (codes "'v'") /\
+  lr_model (fun _ => true) literal_repr_bases literal_repr_hit literal_repr_fallback (mk_obj (LBool true) true [])
+  = Some (codes "True").
+Proof. exact literal_repr_example. Qed.
 
 (* non-vacuity: the hypotheses are met by the adversarial strings, the table is not empty
    and contains every position class the property names *)
